@@ -118,6 +118,11 @@ class Worker(metaclass=SupportClassPropertiesMeta):
             if not any(c is child for c in Worker._active_children):
                 Worker._active_children.append(child)
 
+    @staticmethod
+    def unregister_child(child):
+        with Worker._children_lock:
+            Worker._active_children = [c for c in Worker._active_children if c is not child]
+
     @classmethod
     def create(cls, worker_type, *args, **kwargs):
         if not isinstance(worker_type, WorkerType):
